@@ -88,7 +88,7 @@ func runC05(c *LCase) (viol string, nontrivial bool) {
 		w.FsOp(s)
 	}
 	if c.Overflow > 0 {
-		overflowBurst("d0", c.Overflow)
+		overflowBurst(w.W, c.Overflow)
 	}
 	pending, _ := engine.Fionread(w.Wfd)
 	nontrivial = pending > 0 || c.Plug
